@@ -82,6 +82,7 @@ var s01 struct {
 	pool     []*s01Conn
 	taken    int
 	getFails bool
+	asked    int // how often the session was asked for a work connection
 }
 
 func s01StubWithEncryption(rwc io.ReadWriteCloser, key []byte) (io.ReadWriteCloser, error) {
@@ -129,6 +130,7 @@ func s01StubResolveTCPAddr(network, address string) (*net.TCPAddr, error) {
 }
 
 func s01GetWorkConn() (net.Conn, error) {
+	s01.asked++
 	if s01.getFails || s01.taken >= len(s01.pool) {
 		return nil, errS01
 	}
@@ -208,7 +210,7 @@ func s01Base(name string) (*BaseProxy, *v1.ProxyBaseConfig) {
 func VerifC01ServerStack() {
 	bp, cfg := s01Base("p1")
 	s01.encFails, s01.getFails = zzverif.Bool("encFails"), zzverif.Bool("noWorkConn")
-	s01.recycled, s01.joins, s01.joinA, s01.joinB, s01.taken = 0, 0, nil, nil, 0
+	s01.recycled, s01.joins, s01.joinA, s01.joinB, s01.taken, s01.asked = 0, 0, nil, nil, 0, 0
 	w1 := &s01Conn{name: "w1", writeFail: zzverif.Bool("firstWorkConnDead")}
 	w2 := &s01Conn{name: "w2", writeFail: zzverif.Bool("secondWorkConnDead")}
 	s01.pool = []*s01Conn{w1, w2}
@@ -217,6 +219,11 @@ func VerifC01ServerStack() {
 	bp.handleUserTCPConnection(user)
 
 	zzverif.Assert(user.closed >= 1, "C11.user.user-conn-closed-when-done")
+	if s01.getFails {
+		// each request to the session may take the whole user-connection timeout: when the session
+		// cannot supply a connection the user is given up after one wait, not after one per retry
+		zzverif.Assert(s01.asked == 1, "C11.user.gives-up-after-one-timeout-when-no-work-connection-comes")
+	}
 	if s01.joins == 0 {
 		zzverif.Reach("C01.server.not-bridged")
 		for i := 0; i < s01.taken; i++ {
